@@ -1440,6 +1440,15 @@ where
     fn iterate(&mut self, pl: &mut impl ProgressLog) -> Result<()> {
         let ic = &mut self.iteration_context;
 
+        // The per-thread buffers are indexed by the threads of the pool that
+        // runs the iteration, which might be larger than the pool in which
+        // this structure was built
+        let num_threads = rayon::current_num_threads();
+        if ic.local_next_must_be_checked.len() < num_threads {
+            ic.local_next_must_be_checked
+                .resize_with(num_threads, || UnsafeCell::new(Vec::new()));
+        }
+
         pl.info(format_args!("Performing iteration {}", ic.iteration + 1));
 
         // Alias the number of modified estimators, nodes and arcs
